@@ -1,4 +1,5 @@
-import LokyModel.Lemmas.ExecInv
+import LokyModel.Lemmas.ExecPoolAll
+import LokyModel.Props.C01
 /-!
 # C08 — parallelism never exceeds `max_workers`
 
@@ -7,7 +8,7 @@ Theorems over M1 (`LokyModel.Exec`): every reachable state of one executor, for 
 time-outs, failed try-locks and worker crashes anywhere.
 
 Scope note (kept visible): the clause "max_workers of them do run simultaneously" (delivery) is
-decided by the E1 saturation runs (`harness/simengine`, family `saturate`) and not yet by a theorem;
+decided by the E1 saturation runs (`harness/simengine`, families `saturate*`) and not by a theorem;
 resizes (`_resize`) are outside M1, so `max_workers` is constant here.
 -/
 namespace LokyModel.Exec
@@ -64,5 +65,27 @@ example : ∃ s, Reachable { maxWorkers := 3, timeout := false, tasks := [{}], s
     s.procDict.length = 2 ∧ s.upc 0 = .subExit := by
   refine ⟨_, (reachable_iff_run _ _).2 ⟨[(.U 0, .ok), (.U 0, .ok), (.U 0, .ok), (.U 0, .ok), (.U 0, .ok),
     (.U 0, .ok), (.U 0, .ok), (.U 0, .ok), (.U 0, .ok)], rfl⟩, ?_, ?_⟩ <;> rfl
+
+
+/-- **At no time do more than `max_workers` tasks execute concurrently.**  In every reachable state the number of
+    workers inside a task body is at most `max_workers`: every worker that has not announced its exit is
+    registered in the pool — or is the single one the manager has just un-registered in order to kill / join it —
+    and no worker is started while the manager is in that phase (`PoolInv`, with `AnnInv`: an exit announcement is
+    only in flight while its worker is past taking tasks). -/
+theorem C08_executing_le (cfg : Cfg) (s : St) (h : Reachable cfg s) :
+    (s.allPids.filter (fun p => busy (s.w p))).length ≤ cfg.maxWorkers := by
+  have := executing_le s (poolInv_reachable h) (tokInv_reachable h).pids_nodup
+  rw [cfg_reachable h] at this
+  exact this
+
+/-- Every worker that could still take or run a task is registered (or is being killed / joined by the manager). -/
+theorem C08_live_workers_are_registered (cfg : Cfg) (s : St) (h : Reachable cfg s) (p : Pid) (hp : p ∈ s.allPids)
+    (ha : announced (s.w p) = false) : p ∈ s.procDict ∨ mPop s.mpc = some p :=
+  (poolInv_reachable h).pre p hp ha
+
+/-- non-vacuity: in the D7 witness run of `Props/C01` a worker is inside a task body at some point
+    (prefix of 31 steps: a worker has received the call item and started the body) -/
+example : (run (init cfgD7) (schedD7.take 31)).map (fun s => (s.allPids.filter (fun p => busy (s.w p))).length) = some 1 := by
+  decide +kernel
 
 end LokyModel.Exec
